@@ -203,6 +203,30 @@ def check_common(ctx, base, replay, src, node, tmpdir, with_black):
             same = ast.dump(_norm_docstrings(ftree)) == ast.dump(_norm_docstrings(ast.parse(src)))
         if not same:
             ctx.report(dict(base, field="file", tag="tree_differs", skip_black=skip_black, expected="", observed=""), replay)
+    if with_black:
+        # append sequences: the same artefact emitted twice into one file, with every order of
+        # formatted / unformatted emission (unformatted output does not end in a newline)
+        for first, second in ((True, False), (False, True), (True, True), (False, False)):
+            fn = os.path.join(tmpdir, "seq_{}{}.py".format(int(first), int(second)))
+            if os.path.exists(fn):
+                os.unlink(fn)
+            try:
+                emit.file(node, fn, mode="wt", skip_black=first)
+                emit.file(node, fn, mode="a", skip_black=second)
+                with open(fn) as f:
+                    both = ast.parse(f.read())
+            except SyntaxError as e:
+                ctx.report(dict(base, field="file", tag="append_sequence_does_not_parse", first_skip_black=first, second_skip_black=second,
+                                expected="valid python", observed=str(e)[:120]), replay)
+                continue
+            except Exception as e:
+                ctx.report_exception(e, dict(base, first_skip_black=first, second_skip_black=second), replay, stage="emit.file(append sequence)")
+                continue
+            ctx.event("emit.file_append_sequences")
+            want = ast.dump(_norm_docstrings(ast.parse(src + "\n" + src)))
+            if ast.dump(_norm_docstrings(both)) != want:
+                ctx.report(dict(base, field="file", tag="append_sequence_tree_differs", first_skip_black=first, second_skip_black=second,
+                                expected="", observed=""), replay)
     return tree
 
 
